@@ -204,9 +204,9 @@ def ref_key(ctx: Ctx) -> RuleResult:
 
 # --------------------------------------------------------------------------------------------- REF-FIELDS
 FIELD_EXCEPTIONS = {
-    # function short name -> reason it may touch a strict subset of the reference fields
-    "node.node.ExecNode.execute": "materialises the call arguments; the activation flag is consumed by the scheduler, not passed",
-    "node.node.ExecNode.__post_init__": "type validation of the two container fields only",
+    # Class.method -> reason it may touch a strict subset of the reference fields
+    "ExecNode.execute": "materialises the call arguments; the activation flag is consumed by the scheduler, not passed",
+    "ExecNode.__post_init__": "type validation of the two container fields only",
 }
 
 
@@ -235,7 +235,7 @@ def ref_fields(ctx: Ctx) -> RuleResult:
             continue
         n_sites += 1
         missing = [x for x in fields if x not in reads]
-        exc = FIELD_EXCEPTIONS.get(f.short)
+        exc = FIELD_EXCEPTIONS.get(f"{f.cls.name}.{f.name}") if f.cls is not None else None
         if f.qualname in act:
             exc = "the activation predicate reads only the flag"
         ok = not missing or exc is not None
@@ -614,7 +614,13 @@ def _value_path_funcs(ctx: Ctx) -> List[FuncInfo]:
 
 def _ni_hits(ctx: Ctx, funcs: Iterable[FuncInfo]):
     for f in funcs:
+        logged = set()
+        for n in iter_own_nodes(f.node):  # reads that only feed a log / warning message do not reach a value
+            if isinstance(n, ast.Call) and (dotted(n.func) or "").split(".")[0] in ("logger", "logging", "warnings"):
+                logged.update(id(x) for x in ast.walk(n))
         for n in iter_own_nodes(f.node):
+            if id(n) in logged:
+                continue
             if isinstance(n, ast.Attribute) and n.attr in SCHED_ATTRS and isinstance(n.ctx, ast.Load):
                 t = ctx.type_of(f, n.value)
                 if t[0] in ("cls",) or n.attr == "compound_priority":
